@@ -1,4 +1,4 @@
 From Coq Require Import Extraction ExtrOcamlBasic.
-From Nomt Require Import Base Hash Trie Store Emit Result PathProof BuildTrie VerifyUpdate Witness MultiProof MultiUpdate CoreGlue Image SyncProto SyncGlue Shards ShardsGen Overflow BitOps Wal RbProto ReadPath FreeList SeekPath DeltaCodec NodeCodec BranchBuild RbBook LeafBuild.
+From Nomt Require Import Base Hash Trie Store Emit Result PathProof BuildTrie VerifyUpdate Witness MultiProof MultiUpdate CoreGlue Image SyncProto SyncGlue Shards ShardsGen Overflow BitOps Wal RbProto ReadPath FreeList SeekPath DeltaCodec NodeCodec BranchBuild RbBook LeafBuild AsyncRead.
 Extraction Language OCaml.
-Separate Extraction Base Hash Trie Store Emit Result PathProof BuildTrie VerifyUpdate Witness MultiProof MultiUpdate CoreGlue Image SyncProto SyncGlue Shards ShardsGen Overflow BitOps Wal RbProto ReadPath FreeList SeekPath DeltaCodec NodeCodec BranchBuild RbBook LeafBuild.
+Separate Extraction Base Hash Trie Store Emit Result PathProof BuildTrie VerifyUpdate Witness MultiProof MultiUpdate CoreGlue Image SyncProto SyncGlue Shards ShardsGen Overflow BitOps Wal RbProto ReadPath FreeList SeekPath DeltaCodec NodeCodec BranchBuild RbBook LeafBuild AsyncRead.
